@@ -51,7 +51,7 @@ def gen_spec(rng: random.Random, mode: str):
             "df": rng.choice([1.0, 0.5, 0.25, 0.75]), "notional": rng.choice([1.0, 2.0, 0.5, 4.0]),
             "salt": rng.randrange(0, 17), "ctab": [rng.choice([0.5, 1.0, 2.0, 3.0, 4.0]) for _ in range(Lmax + 3)],
             "dim": rng.choice([1, 1, 1, 2, 3]), "seed": rng.randrange(1 << 30),
-            "kmax": rng.choice([1, 2, 3, 4, 5, 6, 8]), "pconv": rng.choice([0.0, 0.2, 0.5, 0.8])}
+            "kmax": rng.choice([1, 2, 3, 4, 5, 6, 8, 10, 12]), "pconv": rng.choice([0.0, 0.0, 0.2, 0.4, 0.8])}
 
 
 def alloc_generator(spec):
@@ -78,6 +78,8 @@ def alloc_generator(spec):
         return row
 
     def conv(j, sh):
+        if len(sh.alloc_answers) >= spec["kmax"]:     # allocation script exhausted: let the run end through the bias test
+            return True
         return rng.random() < spec["pconv"]
 
     return alloc, conv
